@@ -22,7 +22,7 @@ def oracle(mir, rec):
         v += iface.c12_steps(rec)
     # element type / size rules on the operations that reached the MIR
     for kind, text in G.c05(mir):
-        if kind in ("edge", "index-range") and any(f"{n}#" in text for n in COLL):
+        if kind in ("edge", "index-range", "incomplete-type") and any(f"{n}#" in text for n in COLL):
             v.append((kind, text))
     return v
 
